@@ -127,9 +127,9 @@ Section Level.
     destruct (match prev with Some m => Some m | None => parse_marker line end) as [[[[ind pre_] ld] ct]|]; [|reflexivity].
     destruct (is_blank ct).
     - destruct (count_blank r); [|reflexivity].
-      destruct (item_loop types r _ [] 1 0) as [[buf taken] nm].
+      destruct (item_loop types _ r _ [] 1 0) as [[buf taken] nm].
       pose proof (rec_wf buf (ln + 1) st) as H. destruct (rec buf (ln + 1) st) as [[es lo] st']. cbn in *. exact H.
-    - destruct (item_loop types r _ [ct] 1 0) as [[buf taken] nm].
+    - destruct (item_loop types _ r _ [ct] 1 0) as [[buf taken] nm].
       pose proof (rec_wf buf ln st) as H. destruct (rec buf ln st) as [[es lo] st']. cbn in *. exact H.
   Qed.
 
@@ -281,7 +281,7 @@ Section BuildShape.
         apply forallb_forall. intros x Hx. apply in_map_iff in Hx. destruct Hx as ([[[[a b] c] d] e] & <- & _). reflexivity.
       + (* paragraph *) destruct (inline_ok span_types fn (strip (concat (map lstrip lines)))) as [H1 H2].
         cbn [wf_shape is_blockish]. rewrite H1, H2. auto.
-      + (* setext *) destruct (inline_ok span_types fn (join [10] (map strip (removelast lines)))) as [H1 H2].
+      + (* setext *) destruct (inline_ok span_types fn (strip (concat (map lstrip (removelast lines))))) as [H1 H2].
         cbn [wf_shape is_blockish]. rewrite H1, H2. auto.
     - cbn [build is_pitem wf_pre] in *. destruct (kids_blockish es IH Hw) as [H1 H2]. unfold kids in *.
       split; [|reflexivity]. cbn [wf_shape]. now rewrite H1, H2.
